@@ -20,6 +20,8 @@ type selCase interface {
 	ready() bool
 	// give/take implement rendezvous with a parked peer.
 	giveTo(peer selCase)
+	// capacity of the channel
+	capacity() int
 }
 
 func chanPtr[T any](ch chan T) uintptr { return uintptr(*(*unsafe.Pointer)(unsafe.Pointer(&ch))) }
@@ -97,6 +99,7 @@ func (c *RecvCase[T]) ready() bool {
 	}
 }
 func (c *RecvCase[T]) giveTo(peer selCase) { fatalf("giveTo on recv case") }
+func (c *RecvCase[T]) capacity() int       { return cap(c.ch) }
 
 func (c *SendCase[T]) ptr() uintptr { return c.p }
 func (c *SendCase[T]) isSend() bool { return true }
@@ -120,6 +123,7 @@ func (c *SendCase[T]) ready() bool {
 	}
 	return len(c.ch) < cap(c.ch)
 }
+func (c *SendCase[T]) capacity() int { return cap(c.ch) }
 func (c *SendCase[T]) giveTo(peer selCase) {
 	r, ok := peer.(*RecvCase[T])
 	if !ok {
@@ -156,7 +160,13 @@ func (w *World) attempt(c selCase) bool {
 	if c.try() {
 		return true
 	}
-	// rendezvous with a parked peer
+	// rendezvous with a parked peer. A sender may hand its value to a parked receiver only on an
+	// unbuffered channel: on a buffered one a failed try means the buffer is full, and the parked
+	// receiver (not yet scheduled) must take the buffered values first. A receiver whose try failed
+	// found the buffer empty, so the oldest parked sender holds the next value in both cases.
+	if c.isSend() && c.capacity() > 0 {
+		return false
+	}
 	peer, i := w.findPeer(c.ptr(), !c.isSend())
 	if peer == nil {
 		return false
@@ -250,7 +260,7 @@ func Select(hasDefault bool, cases ...selCase) int {
 }
 
 func (w *World) hasPeer(c selCase) bool {
-	if c.ptr() == 0 {
+	if c.ptr() == 0 || (c.isSend() && c.capacity() > 0) {
 		return false
 	}
 	p, _ := w.findPeer(c.ptr(), !c.isSend())
